@@ -124,7 +124,11 @@ static JanetTable *as_tab[4];
 static int as_ntab, as_tab_live[4], as_tab_released[4];
 static int as_verify_calls, as_verdict, as_emitted, as_raise_ok;
 static JanetFuncDef as_snap;
-static JanetAssembler as_parent;
+static JanetAssembler as_parent;          /* the direct parent (if any); its ancestors are as_chain[] */
+#ifndef AS_DEPTH
+#define AS_DEPTH 2                        /* longest parent chain of the ordinary units */
+#endif
+static JanetAssembler as_chain[AS_DEPTH > 1 ? AS_DEPTH - 1 : 1];
 static JanetFuncDef as_pdef;
 static int as_nested;
 
@@ -254,7 +258,7 @@ JanetAssembleResult as_asm1_stub(JanetAssembler *parent, Janet source, int flags
     __CPROVER_assert(parent != (void *) 0 && parent->def == as_def,
                      "asm1: a nested definition is assembled with this assembler as its parent");
 #ifdef AS_DEPTH_GUARD
-    __CPROVER_assert(0, "asm1: no nested definition is assembled beyond the recursion limit");
+    __CPROVER_assert(AS_DEPTH < JANET_RECURSION_GUARD, "asm1: no nested definition is assembled once the parent chain has JANET_RECURSION_GUARD members");
 #endif
     as_nested++;
     if (nd_int()) {             /* the nested assembler raised: control is in the parent's handler, not here */
@@ -314,11 +318,17 @@ void h_asm1(void) {
 #endif
     as_list_field(K_BYTECODE, AS_MAX);
     as_parent.def = &as_pdef;
-    as_parent.parent = nd_int() ? &as_parent : (JanetAssembler *) 0;
-    JanetAssembler *parent = nd_int() ? &as_parent : (JanetAssembler *) 0;
 #ifdef AS_DEPTH_GUARD
-    parent = &as_parent;                /* an assembler nested arbitrarily deep: every parent has a parent */
-    as_parent.parent = &as_parent;
+    /* exactly AS_DEPTH assemblers above this one: as_parent -> as_chain[AS_DEPTH-2] -> ... -> as_chain[0] -> NULL.
+     * With AS_DEPTH == JANET_RECURSION_GUARD the description must be refused before any nested definition is assembled. */
+    for (int i = 0; i < AS_DEPTH - 1; i++) as_chain[i].parent = i ? &as_chain[i - 1] : (JanetAssembler *) 0;
+    as_parent.parent = AS_DEPTH > 1 ? &as_chain[AS_DEPTH - 2] : (JanetAssembler *) 0;
+    JanetAssembler *parent = &as_parent;
+#else
+    /* no parent, one parent, or a parent with a grandparent (the depth guard counts the chain: unit asm.asm1.depth-guard) */
+    as_chain[0].parent = (JanetAssembler *) 0;
+    as_parent.parent = nd_int() ? &as_chain[0] : (JanetAssembler *) 0;
+    JanetAssembler *parent = nd_int() ? &as_parent : (JanetAssembler *) 0;
 #endif
     as_subname = as_any();
 
